@@ -37,27 +37,60 @@ import (
 
 func init() { h.Register("C07", run) }
 
-type kase struct {
-	Listing []int `json:"listing"`
-	Order   []int `json:"order"` // all model nodes, in address order
+// event of a script of the history part: K = 0 the block of height G is saved, its state holds the
+// suffrage Suf and its hash has the byte sum HS; K = 1 the long-lived selector object Sel (of node
+// Loc) is asked for the point (H, R), GetNodesFunc lists the suffrage of block H-1 as Listing.
+type event struct {
+	K       int   `json:"k"`
+	G       int   `json:"g"`
+	Suf     []int `json:"suf"`
+	HS      int   `json:"hs"`
+	Sel     int   `json:"sel"`
+	Loc     int   `json:"loc"`
 	H       int64 `json:"h"`
 	R       int64 `json:"r"`
-	HS      int   `json:"hs"`
-	Local   int   `json:"local"`
+	Listing []int `json:"listing"`
 	NFail   int   `json:"nfail"`
 }
 
+type selres struct {
+	Ev          int    `json:"ev"` // index of the event in the script
+	Vet         result `json:"vet"`
+	Twin        result `json:"twin"`
+	TwinLocal   int    `json:"twin_local"`
+	TwinListing []int  `json:"twin_listing"`
+}
+
+type sresult struct {
+	I     int      `json:"i"`
+	Sels  []selres `json:"sels"`
+	Panic string   `json:"panic,omitempty"`
+	Ms    int64    `json:"ms"`
+}
+
+type kase struct {
+	Script  []event `json:"script,omitempty"`
+	Listing []int   `json:"listing"`
+	Order   []int   `json:"order"` // all model nodes, in address order
+	H       int64   `json:"h"`
+	R       int64   `json:"r"`
+	HS      int     `json:"hs"`
+	Local   int     `json:"local"`
+	NFail   int     `json:"nfail"`
+}
+
 type result struct {
-	I        int    `json:"i"`
-	Selected []int  `json:"selected"` // nodes returned by the real ProposerSelectFunc, consecutive repeats removed
-	Sorted   [][]int `json:"sorted,omitempty"` // node lists the real ProposerSelectFunc was given (first two)
-	Asked    []int  `json:"asked"`    // nodes handed to RequestFunc, consecutive repeats removed
-	Events   [][2]int `json:"events"` // ordered log: [0,id] = ProposerSelectFunc returned id, [1,id] = RequestFunc asked id (consecutive repeats removed)
-	Winner   int    `json:"winner"`   // proposer of the proposal Select returned (-1: error)
-	Valid    bool   `json:"valid"`    // returned proposal is for the point and previous block
-	Err      string `json:"err,omitempty"`
-	Panic    string `json:"panic,omitempty"`
-	Ms       int64  `json:"ms"`
+	I        int      `json:"i"`
+	Selected []int    `json:"selected"`          // nodes returned by the real ProposerSelectFunc, consecutive repeats removed
+	Sorted   [][]int  `json:"sorted,omitempty"`  // node lists the real ProposerSelectFunc was given (first two)
+	Asked    []int    `json:"asked"`             // nodes handed to RequestFunc, consecutive repeats removed
+	Events   [][2]int `json:"events"`            // ordered log: [0,id] = ProposerSelectFunc returned id, [1,id] = RequestFunc asked id (consecutive repeats removed)
+	Winner   int      `json:"winner"`            // proposer of the proposal Select returned (-1: error)
+	Valid    bool     `json:"valid"`             // returned proposal is for the point and previous block
+	Heights  []int64  `json:"heights,omitempty"` // block heights GetNodesFunc was asked for
+	Err      string   `json:"err,omitempty"`
+	Panic    string   `json:"panic,omitempty"`
+	Ms       int64    `json:"ms"`
 }
 
 var (
@@ -151,104 +184,258 @@ func dedupe(xs []int) []int {
 	return out
 }
 
-func runCase(i int, k kase, w *world, rng *rand.Rand) result {
-	res := result{I: i, Winner: -1}
-	start := time.Now()
-	res.Panic = h.Catch(func() {
-		pool, err := isaacdatabase.NewTempPool(leveldbstorage.NewMemStorage(), encs, enc, 0)
-		if err != nil {
-			panic(err)
-		}
-		defer pool.Close()
-		local := w.nodes[k.Local]
-		point := base.RawPoint(k.H, uint64(k.R))
-		prev := hashWithSum(k.HS, rng)
+// selector is one real, possibly long-lived, isaac.BaseProposalSelector of one node with its own
+// real TempPool; what its hooks saw during the current call is logged.
+type selector struct {
+	w     *world
+	local int
+	pool  *isaacdatabase.TempPool
+	ps    *isaac.BaseProposalSelector
 
-		var mu sync.Mutex
-		var selected, asked []int
-		var events [][2]int
-		logev := func(kind, id int) {
-			if n := len(events); n == 0 || events[n-1] != [2]int{kind, id} {
-				events = append(events, [2]int{kind, id})
-			}
-		}
-		var sorted [][]int
-		failed := map[int]bool{}
-		real := isaac.NewBlockBasedProposerSelector()
+	mu       sync.Mutex
+	getNodes func(base.Height) ([]int, bool) // what GetNodesFunc answers during the current call (model ids, listed order)
+	nfail    int
+	failed   map[int]bool
+	selected []int
+	asked    []int
+	events   [][2]int
+	sorted   [][]int
+	heights  []int64 // block heights GetNodesFunc was asked for
+}
 
-		args := isaac.NewBaseProposalSelectorArgs()
-		args.Pool = pool
-		args.Maker = isaac.NewProposalMaker(local, netID, nil, pool, nil)
-		args.GetNodesFunc = func(base.Height) ([]base.Node, bool, error) {
-			ns := make([]base.Node, len(k.Listing))
-			for j, id := range k.Listing {
-				ns[j] = w.nodes[id]
-			}
-			return ns, true, nil
+func newSelector(w *world, localid int, minwait time.Duration) *selector {
+	s := &selector{w: w, local: localid}
+	pool, err := isaacdatabase.NewTempPool(leveldbstorage.NewMemStorage(), encs, enc, 0)
+	if err != nil {
+		panic(err)
+	}
+	s.pool = pool
+	local := w.nodes[localid]
+	real := isaac.NewBlockBasedProposerSelector()
+
+	args := isaac.NewBaseProposalSelectorArgs()
+	args.Pool = pool
+	args.Maker = isaac.NewProposalMaker(local, netID, nil, pool, nil)
+	args.GetNodesFunc = func(g base.Height) ([]base.Node, bool, error) {
+		s.mu.Lock()
+		s.heights = append(s.heights, g.Int64())
+		f := s.getNodes
+		s.mu.Unlock()
+		ids, found := f(g)
+		if !found {
+			return nil, false, nil
 		}
-		args.ProposerSelectFunc = func(ctx context.Context, p base.Point, nodes []base.Node, pb util.Hash) (base.Node, error) {
-			n, err := real.Select(ctx, p, nodes, pb)
-			mu.Lock()
-			if err == nil && n != nil {
-				selected = append(selected, w.id(n.Address()))
-				logev(0, w.id(n.Address()))
-				if len(sorted) < 2 {
-					l := make([]int, len(nodes))
-					for j := range nodes {
-						l[j] = w.id(nodes[j].Address())
-					}
-					if len(sorted) == 0 || len(sorted[len(sorted)-1]) != len(l) {
-						sorted = append(sorted, l)
-					}
+		ns := make([]base.Node, len(ids)) // a fresh slice at every call: the code sorts it in place
+		for j, id := range ids {
+			ns[j] = w.nodes[id]
+		}
+		return ns, true, nil
+	}
+	args.ProposerSelectFunc = func(ctx context.Context, p base.Point, nodes []base.Node, pb util.Hash) (base.Node, error) {
+		n, err := real.Select(ctx, p, nodes, pb)
+		s.mu.Lock()
+		if err == nil && n != nil {
+			s.selected = append(s.selected, w.id(n.Address()))
+			s.logev(0, w.id(n.Address()))
+			if len(s.sorted) < 2 {
+				l := make([]int, len(nodes))
+				for j := range nodes {
+					l[j] = w.id(nodes[j].Address())
+				}
+				if len(s.sorted) == 0 || len(s.sorted[len(s.sorted)-1]) != len(l) {
+					s.sorted = append(s.sorted, l)
 				}
 			}
-			mu.Unlock()
-			return n, err
 		}
-		args.RequestFunc = func(_ context.Context, p base.Point, proposer base.Node, pb util.Hash) (base.ProposalSignFact, bool, error) {
-			id := w.id(proposer.Address())
-			mu.Lock()
-			asked = append(asked, id)
-			logev(1, id)
-			fail := failed[id]
-			if !fail && len(failed) < k.NFail {
-				failed[id] = true
-				fail = true
-			}
-			mu.Unlock()
-			if fail {
-				return nil, false, errors.Errorf("node %d does not answer", id)
-			}
-			n, ok := w.nodes[id]
-			if !ok {
-				return nil, false, errors.Errorf("unknown node")
-			}
-			sf := isaac.NewProposalSignFact(isaac.NewProposalFact(p, n.Address(), pb, nil))
-			if err := sf.Sign(n.Privatekey(), netID); err != nil {
-				return nil, false, err
-			}
-			return sf, true, nil
+		s.mu.Unlock()
+		return n, err
+	}
+	args.RequestFunc = func(_ context.Context, p base.Point, proposer base.Node, pb util.Hash) (base.ProposalSignFact, bool, error) {
+		id := w.id(proposer.Address())
+		s.mu.Lock()
+		s.asked = append(s.asked, id)
+		s.logev(1, id)
+		fail := s.failed[id]
+		if !fail && len(s.failed) < s.nfail {
+			s.failed[id] = true
+			fail = true
 		}
-		args.RequestProposalInterval = time.Millisecond * 20
-		// the first proposer is retried until the deadline; a failing one costs the whole wait
-		args.MinProposerWait = time.Second * 8
-		if k.NFail > 0 {
-			args.MinProposerWait = time.Millisecond * 1500
+		s.mu.Unlock()
+		if fail {
+			return nil, false, errors.Errorf("node %d does not answer", id)
 		}
-		args.TimeoutRequest = func() time.Duration { return time.Second * 8 }
+		n, ok := w.nodes[id]
+		if !ok {
+			return nil, false, errors.Errorf("unknown node")
+		}
+		sf := isaac.NewProposalSignFact(isaac.NewProposalFact(p, n.Address(), pb, nil))
+		if err := sf.Sign(n.Privatekey(), netID); err != nil {
+			return nil, false, err
+		}
+		return sf, true, nil
+	}
+	args.RequestProposalInterval = time.Millisecond * 20
+	// the first proposer is retried until the deadline; a failing one costs the whole wait
+	args.MinProposerWait = minwait
+	args.TimeoutRequest = func() time.Duration { return time.Second * 8 }
 
-		ps := isaac.NewBaseProposalSelector(local, args)
-		pr, err := ps.Select(context.Background(), point, prev, 0)
-		mu.Lock()
-		res.Selected, res.Asked, res.Sorted = dedupe(selected), dedupe(asked), sorted
-		res.Events = append([][2]int{}, events...)
-		mu.Unlock()
+	s.ps = isaac.NewBaseProposalSelector(local, args)
+	return s
+}
+
+func (s *selector) logev(kind, id int) {
+	if n := len(s.events); n == 0 || s.events[n-1] != [2]int{kind, id} {
+		s.events = append(s.events, [2]int{kind, id})
+	}
+}
+
+func (s *selector) close() { _ = s.pool.Close() }
+
+// call puts one selection to the real selector object.
+func (s *selector) call(
+	i int, point base.Point, prev util.Hash, nfail int, wait time.Duration, getNodes func(base.Height) ([]int, bool),
+) result {
+	res := result{I: i, Winner: -1}
+	start := time.Now()
+	s.mu.Lock()
+	s.getNodes, s.nfail, s.failed = getNodes, nfail, map[int]bool{}
+	s.selected, s.asked, s.events, s.sorted, s.heights = nil, nil, nil, nil, nil
+	s.mu.Unlock()
+	res.Panic = h.Catch(func() {
+		pr, err := s.ps.Select(context.Background(), point, prev, wait)
+		s.mu.Lock()
+		res.Selected, res.Asked, res.Sorted = dedupe(s.selected), dedupe(s.asked), s.sorted
+		res.Events = append([][2]int{}, s.events...)
+		res.Heights = append([]int64{}, s.heights...)
+		s.mu.Unlock()
 		if err != nil {
 			res.Err = err.Error()
 			return
 		}
-		res.Winner = w.id(pr.ProposalFact().Proposer())
+		res.Winner = s.w.id(pr.ProposalFact().Proposer())
 		res.Valid = pr.Point().Equal(point) && pr.ProposalFact().PreviousBlock().Equal(prev)
+	})
+	if res.Events == nil {
+		res.Events = [][2]int{}
+	}
+	res.Ms = time.Since(start).Milliseconds()
+	return res
+}
+
+func waits(nfail int) (minwait, wait time.Duration) {
+	if nfail > 0 {
+		return time.Millisecond * 1500, 0
+	}
+	return time.Millisecond * 1500, time.Second * 8
+}
+
+// runCase: one selection by a selector object made for it.
+func runCase(i int, k kase, w *world, rng *rand.Rand) (res result) {
+	res = result{I: i, Winner: -1, Events: [][2]int{}}
+	if p := h.Catch(func() {
+		minwait, wait := waits(k.NFail)
+		s := newSelector(w, k.Local, minwait)
+		defer s.close()
+		res = s.call(i, base.RawPoint(k.H, uint64(k.R)), hashWithSum(k.HS, rng), k.NFail, wait,
+			func(base.Height) ([]int, bool) { return k.Listing, true })
+	}); p != "" {
+		res.Panic = p
+	}
+	return res
+}
+
+// runScript replays one script of the history part: a chain that grows block by block (the
+// suffrage of a block height is what GetNodesFunc answers for that height, nothing above the
+// top of the chain), long-lived selector objects that are asked point after point, and for every
+// selection a selector object made for this single call (a node that has just started), which
+// gets another listing of the same suffrage, the same point and the same previous block.
+func runScript(i int, k kase, w *world, rng *rand.Rand) (res sresult) {
+	res = sresult{I: i, Sels: []selres{}}
+	start := time.Now()
+	vets := map[int]*selector{}
+	defer func() {
+		for _, s := range vets {
+			s.close()
+		}
+	}()
+	res.Panic = h.Catch(func() {
+		var sufs [][]int       // sufs[g] = members in the state of block g
+		var hashes []util.Hash // hashes[g] = hash of block g
+		shuffled := func(ids []int, r *rand.Rand) []int {
+			out := append([]int{}, ids...)
+			r.Shuffle(len(out), func(a, b int) { out[a], out[b] = out[b], out[a] })
+			return out
+		}
+		for ei, e := range k.Script {
+			switch e.K {
+			case 0:
+				if e.G != len(sufs) {
+					panic(fmt.Sprintf("script %d: block %d after %d blocks", i, e.G, len(sufs)))
+				}
+				sufs = append(sufs, append([]int{}, e.Suf...))
+				hashes = append(hashes, hashWithSum(e.HS, rng))
+			case 1:
+				if e.H < 1 || int(e.H) > len(sufs) {
+					panic(fmt.Sprintf("script %d: point of height %d with %d blocks", i, e.H, len(sufs)))
+				}
+				minwait, wait := waits(e.NFail)
+				vet, ok := vets[e.Sel]
+				if !ok {
+					vet = newSelector(w, e.Loc, minwait)
+					vets[e.Sel] = vet
+				}
+				top := len(sufs) - 1
+				chain := func(listing []int, r *rand.Rand) func(base.Height) ([]int, bool) {
+					var l sync.Mutex
+					return func(g base.Height) ([]int, bool) {
+						switch {
+						case g.Int64() < 0 || g.Int64() > int64(top):
+							return nil, false
+						case g.Int64() == e.H-1:
+							return listing, true
+						default:
+							l.Lock()
+							defer l.Unlock()
+							return shuffled(sufs[g.Int64()], r), true
+						}
+					}
+				}
+				// the node that has just started: the same node when proposers fail (which nodes are
+				// asked depends on who is local), otherwise any node
+				tlocal := e.Loc
+				if e.NFail == 0 {
+					cands := append([]int{0}, e.Listing...)
+					tlocal = cands[rng.Intn(len(cands))]
+				}
+				tlisting := shuffled(e.Listing, rng)
+				sr := selres{Ev: ei, TwinLocal: tlocal, TwinListing: tlisting}
+				point := base.RawPoint(e.H, uint64(e.R))
+				prev := hashes[e.H-1]
+				r1 := rand.New(rand.NewSource(rng.Int63()))
+				r2 := rand.New(rand.NewSource(rng.Int63()))
+				var wg sync.WaitGroup
+				wg.Add(2)
+				go func() {
+					defer wg.Done()
+					sr.Vet = vet.call(ei, point, prev, e.NFail, wait, chain(e.Listing, r1))
+				}()
+				go func() {
+					defer wg.Done()
+					sr.Twin = result{I: ei, Winner: -1, Events: [][2]int{}}
+					if p := h.Catch(func() {
+						twin := newSelector(w, tlocal, minwait)
+						defer twin.close()
+						sr.Twin = twin.call(ei, point, prev, e.NFail, wait, chain(tlisting, r2))
+					}); p != "" {
+						sr.Twin.Panic = p
+					}
+				}()
+				wg.Wait()
+				res.Sels = append(res.Sels, sr)
+			default:
+				panic(fmt.Sprintf("script %d: event kind %d", i, e.K))
+			}
+		}
 	})
 	res.Ms = time.Since(start).Milliseconds()
 	return res
@@ -263,7 +450,7 @@ func run(args []string) error {
 		return err
 	}
 	seed, _ := strconv.ParseInt(os.Getenv("VERIF_SEED"), 10, 64)
-	par := 48
+	par := 192 // the runs mostly sleep (33 ms ticker before the first request, proposer wait)
 	if v, err := strconv.Atoi(fl["par"]); err == nil && v > 0 {
 		par = v
 	}
@@ -308,7 +495,7 @@ func run(args []string) error {
 			worlds[key] = newWorld(k.Order)
 		}
 	}
-	results := make([]result, len(cases))
+	results := make([]interface{}, len(cases))
 	var wg sync.WaitGroup
 	sem := make(chan struct{}, par)
 	for i := range cases {
@@ -318,7 +505,11 @@ func run(args []string) error {
 			defer wg.Done()
 			defer func() { <-sem }()
 			rng := rand.New(rand.NewSource(seed*1000003 + int64(i)))
-			results[i] = runCase(i+1, cases[i], worlds[fmt.Sprint(cases[i].Order)], rng)
+			if cases[i].Script != nil {
+				results[i] = runScript(i+1, cases[i], worlds[fmt.Sprint(cases[i].Order)], rng)
+			} else {
+				results[i] = runCase(i+1, cases[i], worlds[fmt.Sprint(cases[i].Order)], rng)
+			}
 		}(i)
 	}
 	wg.Wait()
